@@ -162,10 +162,9 @@ CMD_PRELUDE = [
     "/-- `s.startswith(p)` -/",
     "def pyStartsWith (s p : Str) : Bool := p.isPrefixOf s",
     "",
-    "/-- `for variant in re.split(r\",|\\.|\\.\\.\", value): if variant in available_restrictions: use_tests_default = False`",
-    "(`else: with_nontrivial_restrictions = True` only feeds a log line) -/",
-    "def scanPrimary (av : Avail) (value : Str) : M Unit :=",
-    "  modSt (fun st => { st with useDef := st.useDef && !(splitVariants value).any (av.restrictions.contains ·) })",
+    "/-- `use_tests_default = False` (inside the primary-restriction scan; its `else: with_nontrivial_restrictions = True`",
+    "only feeds a log line) -/",
+    "def dropTestsDefault : M Unit := modSt (fun st => { st with useDef := false })",
     "/-- `tests_str += \"%s %s\\n\" % (key, value)` -/",
     "def addTestsLine (key value : Str) : M Unit := modSt (fun st => { st with tests := st.tests ++ [(key, value)] })",
     "/-- `nets_str = \"%s %s\\n\" % (key.replace(\"_nets\", \"\"), value) if value else \"\"` -/",
@@ -176,17 +175,16 @@ CMD_PRELUDE = [
     "  match netsBy av st.netsStr with",
     "  | .error e => .error e",
     "  | .ok names => .ok ((), { st with pd := dictSet st.pd kNets (joinSp names) })",
-    "/-- the body of `if re.fullmatch(f\"(only|no)_{vm_name}\", key):` for the first vm that matches:",
-    "`use_vms_default[vm_name] = False`, `vm_strs[vm_name] += \"%s %s\\n\" % (key.replace(f\"_{vm_name}\", \"\"), value) if value else \"\"` -/",
-    "def addVmLine (vm key value : Str) : M Unit :=",
-    "  modSt (fun st => { st with vmNoDef := vm :: st.vmNoDef,",
-    "                             vmLines := if value.isEmpty then st.vmLines",
-    "                                        else st.vmLines ++ [(vm, (removeAll ('_' :: vm) key, value))] })",
+    "/-- `use_vms_default[vm_name] = False` -/",
+    "def dropVmDefault (vm : Str) : M Unit := modSt (fun st => { st with vmNoDef := vm :: st.vmNoDef })",
+    "/-- `\"%s %s\\n\" % (key.replace(f\"_{vm_name}\", \"\"), value) if value else \"\"` (none = the empty string) -/",
+    "def vmStrOf (vm key value : Str) : Option (Str × Str) :=",
+    "  if value.isEmpty then none else some (removeAll ('_' :: vm) key, value)",
+    "/-- `vm_strs[vm_name] += vm_str` -/",
+    "def addVmStr (vm : Str) (line : Option (Str × Str)) : M Unit :=",
+    "  modSt (fun st => { st with vmLines := match line with | none => st.vmLines | some l => st.vmLines ++ [(vm, l)] })",
     "/-- `with_selected_vms[:] = value.split(\",\")` -/",
     "def setSelVms (value : Str) : M Unit := modSt (fun st => { st with selVms := splitComma value })",
-    "/-- `for vm_name in with_selected_vms: if vm_name not in available_vms: raise ValueError(…)` -/",
-    "def checkSelVms (av : Avail) : M Unit := fun st =>",
-    "  if st.selVms.all (av.vms.contains ·) then .ok ((), st) else .error Err.valueError",
     "/-- `param_dict[key] = value` -/",
     "def setParam (key value : Str) : M Unit := modSt (fun st => { st with pd := dictSet st.pd key value })",
     "/-- `explicit_nets = value` (only `explicit_nets is not None` is ever observed) -/",
@@ -209,6 +207,13 @@ for vm_name in with_selected_vms:
             "The vm '%s' is not among the supported vms: "
             "%s" % (vm_name, ", ".join(available_vms))
         )
+'''
+
+CMD_VMS_RAISE = '''
+raise ValueError(
+    "The vm '%s' is not among the supported vms: "
+    "%s" % (vm_name, ", ".join(available_vms))
+)
 '''
 
 CMD_VM_BODY_1 = 'use_vms_default[vm_name] = False'
@@ -255,17 +260,26 @@ def cmd_step_spec():
             "re.fullmatch('(only|no)_nets', key)": ("(netsKey key)", "bool"),
             "nets_str != ''": ("readSt (fun st => st.netsStr.isSome)", "bool", "reads"),
             "explicit_nets is not None": ("readSt (fun st => st.explicitNets)", "bool", "reads"),
+            # the three inner loops (translated since the `effect_loops` shapes of pygen exist)
+            "available_restrictions": ("av.restrictions", "slist"),
+            "available_vms": ("av.vms", "slist"),
+            "with_selected_vms": ("readSt (fun st => st.selVms)", "slist", "reads"),
+            "re.fullmatch(f'(only|no)_{vm_name}', key)": ("(vmKey key vm_name)", "bool"),
         },
+        calls={"re.split(r',|\\.|\\.\\.', _1)": ("(splitVariants {1})", "slist", "pure", ["str"])},
+        effect_loops=True,
         stmts={
             "(key, value) = re_param.group(1, 2)": "let mut (key, value) := (splitArg cmd_param).getD ([], [])",
-            CMD_SCAN_LOOP: "scanPrimary av value",
+            "use_tests_default = False": "dropTestsDefault",
+            "with_nontrivial_restrictions = True": "pure ()",
             'tests_str += "%s %s\\n" % (key, value)': "addTestsLine key value",
             'nets_str = ("%s %s\\n" % (key.replace("_nets", ""), value) if value else "")': "setNetsStr key value",
             'param_dict["nets"] = " ".join(param.all_suffixes_by_restriction(nets_str))': "setNetsByRestr av",
-            CMD_VM_LOOP: "match av.vms.find? (vmKey key) with | some vm => addVmLine vm key value "
-                         "| none => throw Err.valueError",
+            CMD_VM_BODY_1: "dropVmDefault vm_name",
+            CMD_VM_BODY_2: "let vm_str := vmStrOf vm_name key value",
+            CMD_VM_BODY_3: "addVmStr vm_name vm_str",
             'with_selected_vms[:] = value.split(",")': "setSelVms value",
-            CMD_VMS_LOOP: "checkSelVms av",
+            CMD_VMS_RAISE: "throw Err.valueError",
             'value = value.replace(",", " ")': "value := commaToSpace value",
             "param_dict[key] = value": "setParam key value",
             "explicit_nets = value": "setExplicitNets",
@@ -275,7 +289,8 @@ def cmd_step_spec():
                 ("ValueError", "Cannot specify a nets restriction '{}' together with explicit net suffixes {}",
                  "Err.valueError"),
                 ("ValueError", "Cannot specify explicit net suffixes {} together with a nets restriction, currently "
-                               "also specified '{}'", "Err.valueError")],
+                               "also specified '{}'", "Err.valueError"),
+                ("ValueError", "Invalid object restriction {} (no such object)", "Err.valueError")],
         prims={"startswith": "pyStartsWith"},
         prelude=CMD_PRELUDE,
         doc="ONE iteration of the main tokenizing loop of `params_from_cmd` (avocado_i2n/cmd_parser.py), translated "
